@@ -4,6 +4,7 @@ from hypothesis import strategies as st
 import sqlparse
 
 from gen import grammar as G, regions as R
+from props import _split
 from vlib.core import Leg, Result, exc_failure, excluded_hazards
 
 ID = 'C05'
@@ -82,17 +83,6 @@ def check(case):
     res = Result(key=text)
     stmts = [m for m in marks if m['k'] == 'stmt']
     k = len(stmts)
-    # has the script a final ';'?  a '--' tail after a statement without ';' still belongs to it
-    owner = [None] * len(clean)
-    for si, m in enumerate(stmts):
-        lead = True
-        for i in range(m['s'], m['e']):
-            if lead and clean[i][0] == 'comment':
-                continue            # a comment written before the statement's first word may stay with the previous statement
-            lead = False
-            owner[i] = si
-        if m['e'] < len(clean) and clean[m['e']][0] == 'semi':
-            owner[m['e']] = si
     try:
         pieces = sqlparse.split(text)
         nparse = len(sqlparse.parse(text))
@@ -109,32 +99,7 @@ def check(case):
             if l[0] == 'parenbody' and (seen_end and ';' in l[1] or 'end' in l[1].lower().split()):
                 hazard = True
     sig = 'hazard' if hazard else ''
-    if len(pieces) != k or nparse != k:
-        res.fail('count', ('fewer' if len(pieces) < k else 'more') + (':' + sig if sig else ''),
-                 'script of %d statements: split gives %d, parse gives %d; text %r' % (k, len(pieces), nparse, text[:300]))
-    # locate pieces
-    pos = 0
-    ext = []
-    for p in pieces:
-        j = pos
-        while j < len(text) and text[j].isspace():
-            j += 1
-        if not text.startswith(p, j):
-            res.fail('partition', '', 'piece %r not found at %d' % (p[:40], j))
-            return res
-        ext.append((j, j + len(p)))
-        pos = j + len(p)
-    for i, (s, e) in enumerate(spans):
-        if clean[i][0] == 'comment':
-            e = s + len(clean[i][1].rstrip())      # split() strips the piece: the line end of a final comment is whitespace
-        inside = [pi for pi, (a, b) in enumerate(ext) if a <= s and e <= b]
-        if not inside:
-            res.fail('cut-inside-lexeme', clean[i][0] + (':' + sig if sig else ''), 'lexeme %r is not wholly inside one piece' % clean[i][1][:40])
-            break
-        if owner[i] is not None and inside[0] != owner[i]:
-            res.fail('extent', ('early' if inside[0] > owner[i] else 'late') + (':' + sig if sig else ''),
-                     'lexeme %r of statement %d lies in piece %d; text %r' % (clean[i][1][:30], owner[i], inside[0], text[:300]))
-            break
+    _split.check_extents(res, text, clean, spans, marks, pieces, nparse, (':' + sig) if sig else '')
     region_semis = sum(1 for l in clean if l[3].get('region') and ';' in l[1]) + sum(1 for l in clean if l[0] in ('str', 'comment', 'qname') and ';' in l[1])
     res.nontrivial = k >= 2 and region_semis >= 1
     res.labels = ['k=%d' % k, 'regions-with-semicolon'] * 1 if region_semis else ['k=%d' % k]
